@@ -359,7 +359,8 @@ class YPPrologCompiler:
             args = [ self.compile_expression(a) for a in expr.args ]
             return YPCodeCall('functor',[ YPCodeExpr(expr.name.value), YPCodeList(args) ])
         if isinstance(expr,NumeralTerm):
-            return YPCodeValue(expr.num)
+            # normalise the spelling: Python rejects integer literals with leading zeros
+            return YPCodeValue(str(int(expr.num)))
         if isinstance(expr,ListTerm):
             return self.compile_list(expr)
         if isinstance(expr,ListPairTerm):
